@@ -569,6 +569,8 @@ struct Model {
     cls: BTreeMap<String, Cls>,
     /// by-anchors mode: glyphs whose role the rule does not fix
     ambiguous: BTreeSet<String>,
+    /// groups for which some exported glyph has an attaching (non-underscore) anchor
+    attaching_groups: BTreeSet<String>,
     unsupported: Option<String>,
 }
 
@@ -712,7 +714,7 @@ impl Model {
             }
         }
         let _ = mark_groups;
-        Model { mode, masters, eff, cls, ambiguous, unsupported }
+        Model { mode, masters, eff, cls, ambiguous, attaching_groups: base_groups, unsupported }
     }
 
     /// expected entries: (kind, G, component, M, group)
@@ -744,7 +746,15 @@ impl Model {
                         group: group.clone(),
                         base: (0..self.masters).map(|k| gper[k].iter().find(|a| a.0 == *an).map(|a| a.1).unwrap_or(gper[k][ai].1)).collect(),
                         mark: (0..self.masters).map(|k| mper[k].iter().find(|a| a.0 == under).map(|a| a.1).unwrap_or(mper[k][mi].1)).collect(),
-                        g_mark_without_underscore: *gc == Cls::Mark && !gper[0].iter().any(|a| a.0.starts_with('_')),
+                        g_mark_note: if *gc != Cls::Mark || self.mode == Mode::ByAnchors {
+                            ""
+                        } else if !gper[0].iter().any(|a| a.0.starts_with('_')) {
+                            ":attaching-mark-has-no-underscore-anchor"
+                        } else if !gper[0].iter().any(|a| a.0.strip_prefix('_').is_some_and(|g| self.attaching_groups.contains(g))) {
+                            ":attaching-mark-has-only-unmatched-underscore-anchors"
+                        } else {
+                            ""
+                        },
                     });
                 }
             }
@@ -763,7 +773,8 @@ struct Expected {
     /// unrounded source positions per master
     base: Vec<Pos>,
     mark: Vec<Pos>,
-    g_mark_without_underscore: bool,
+    /// for kind mark: a property of the attaching mark that the failing class may hinge on
+    g_mark_note: &'static str,
 }
 
 fn rp(p: Pos) -> Pos {
@@ -1108,7 +1119,7 @@ fn evaluate(d: &Design, propagate: bool) -> Eval {
             let (wb, wm) = (rp(e.base[m]), rp(e.mark[m]));
             let feature = if e.kind == Cls::Mark { "mkmk" } else { "mark" };
             let cands: Vec<&&MarkAttachment> = by_key.get(&key).map(|v| v.iter().collect()).unwrap_or_default();
-            let note = if e.g_mark_without_underscore { ":attaching-mark-has-no-underscore-anchor" } else { "" };
+            let note = e.g_mark_note;
             let details = |extra: Value| {
                 json!({"master": m, "coords": coords, "attaching_glyph": e.g, "component": e.comp, "mark_glyph": e.m, "group": e.group,
                        "source_base_anchor": e.base[m], "source_mark_anchor": e.mark[m], "expected_base_anchor": wb, "expected_mark_anchor": wm, "font": extra})
@@ -1386,6 +1397,33 @@ fn main() {
         }
         (0, 0)
     };
+    if let Some(i) = std::env::var("C10_SHOW").ok().and_then(|s| s.parse::<usize>().ok()) {
+        // debugging aid: print what the compiler produces for one enumerated case
+        let (si, k) = locate(i);
+        let spec = spaces[si].case(k);
+        println!("{}", spec.label());
+        let d = build_design(&spec);
+        let sc = vcore::Scratch::new("c10show");
+        let path = d.write_source(sc.path()).unwrap();
+        let bytes = fcx::compile(&path, &Opts { propagate_anchors: Some(spec.propagate), ..Default::default() }, None).unwrap();
+        let vf = VFont::new(&bytes).unwrap();
+        let lf = LFont::new(&bytes).unwrap();
+        for (g, n) in vf.glyph_names().iter().enumerate() {
+            println!("gid {g} {n} class {}", lf.glyph_class(g as u16));
+        }
+        for sl in [("DFLT", "dflt"), ("latn", "dflt")] {
+            println!("{sl:?}: {:?}", lf.features_for(Table::Gpos, sl.0, sl.1, &[]));
+        }
+        for a in lf.mark_attachments(&[]) {
+            println!("{a:?}");
+        }
+        let ev = evaluate(&d, spec.propagate);
+        for x in ev.viol {
+            println!("{}: {}", x.key, x.what);
+        }
+        vcore::cleanup_scratch();
+        std::process::exit(0);
+    }
     let chunk = 32usize;
     let nchunks = total_cases.div_ceil(chunk);
     let start = std::time::Instant::now();
